@@ -23,6 +23,7 @@ pub enum UCmd {
     Prune { no_exemptions: bool, no_audits: bool, no_imports: bool },
     RegenImports,
     RegenUnpublished,
+    RegenAuditAs,
     CertifyFull { pkg: String, v: VetVersion, crit: Vec<String> },
     CertifyDelta { pkg: String, from: VetVersion, to: VetVersion, crit: Vec<String>, collapse: bool },
     CertifyWildcard { pkg: String, login: String, crit: Vec<String>, end: Option<chrono::NaiveDate> },
@@ -53,6 +54,7 @@ impl UCmd {
             }
             UCmd::RegenImports => a.extend([s("regenerate"), s("imports")]),
             UCmd::RegenUnpublished => a.extend([s("regenerate"), s("unpublished")]),
+            UCmd::RegenAuditAs => a.extend([s("regenerate"), s("audit-as-crates-io")]),
             UCmd::CertifyFull { pkg, v, crit } => {
                 a.extend([s("certify"), pkg.clone(), v.to_string()]);
                 crits(&mut a, crit);
@@ -100,6 +102,7 @@ impl UCmd {
             UCmd::Prune { .. } => "prune",
             UCmd::RegenImports => "regenerate-imports",
             UCmd::RegenUnpublished => "regenerate-unpublished",
+            UCmd::RegenAuditAs => "regenerate-audit-as",
             UCmd::CertifyFull { .. } => "certify-full",
             UCmd::CertifyDelta { .. } => "certify-delta",
             UCmd::CertifyWildcard { .. } => "certify-wildcard",
@@ -128,7 +131,7 @@ impl UCmd {
             UCmd::Import { .. } => Some((6, false, false, false)),
             UCmd::CertifyFull { .. } | UCmd::CertifyDelta { .. } | UCmd::CertifyWildcard { .. } => Some((7, false, false, false)),
             UCmd::Trust { .. } => Some((8, false, false, false)),
-            UCmd::AddExemption { .. } | UCmd::RecordViolation { .. } | UCmd::Renew { .. } => None,
+            UCmd::AddExemption { .. } | UCmd::RecordViolation { .. } | UCmd::Renew { .. } | UCmd::RegenAuditAs => None,
         }
     }
 }
@@ -202,6 +205,10 @@ fn replica(p: &Project, uc: &UCmd, d: &mut Driver) -> Result<Vec<String>, String
         let who = vec![gen::sp("tester".to_owned())];
         match uc {
             UCmd::Check => {
+                // the preflight of an unlocked check (main.rs:2190-2202)
+                let mut cache = Cache::acquire(&cfg).map_err(|e| e2s(&e))?;
+                crate::check_crate_policies(&cfg, &store).map_err(|e| e2s(&e))?;
+                tokio::runtime::Handle::current().block_on(crate::check_audit_as_crates_io(&cfg, &store, network.as_ref(), &mut cache)).map_err(|e| e2s(&e))?;
                 let ok = matches!(resolver::resolve(&cfg.metadata, None, &store).conclusion, Conclusion::Success(_));
                 if !ok {
                     return Err("check fails".into());
@@ -268,7 +275,7 @@ fn replica(p: &Project, uc: &UCmd, d: &mut Driver) -> Result<Vec<String>, String
                 if !foreign(&store, pkg) { return Err("not a package".into()); }
                 store.audits.audits.entry(pkg.clone()).or_default().push(AuditEntry { who, criteria: spanned(crit), importable: true, kind: AuditKind::Violation { violation: VersionReq::parse(req).map_err(|e| e2s(&e))? }, notes: None, aggregated_from: vec![], is_fresh_import: false });
             }
-            UCmd::Renew { .. } => return Err("no replica".into()),
+            UCmd::Renew { .. } | UCmd::RegenAuditAs => return Err("no replica".into()),
         }
         if uc.model_cmd().is_some() {
             let mut names: BTreeSet<String> = cfg.metadata.packages.iter().map(|q| q.name.clone()).collect();
@@ -310,8 +317,21 @@ fn c11_user(r: &mut Report, uc: &UCmd, before: &[String], after: &[String], live
     if a.audits.criteria != b.audits.criteria {
         r.fail("oracle", "C11/ucmd/criteria-changed", format!("`{lab}` changed the criteria table"), case);
     }
-    if format!("{:?}", a.config.policy) != format!("{:?}", b.config.policy) || a.config.default_criteria != b.config.default_criteria {
-        r.fail("oracle", "C11/ucmd/policy-changed", format!("`{lab}` changed policy"), case);
+    // policy: untouched; `regenerate audit-as-crates-io` may set or clear that one flag (and add
+    // entries that carry nothing else), never anything a user wrote next to it
+    let rest_of = |pol: &Policy| -> Vec<String> {
+        let mut v = Vec::new();
+        for (name, version, e) in pol.iter() {
+            if e.criteria.is_some() || e.dev_criteria.is_some() || !e.dependency_criteria.is_empty() || e.notes.is_some() {
+                v.push(format!("{name}:{version:?} criteria={:?} dev={:?} deps={:?} notes={:?}", e.criteria, e.dev_criteria, e.dependency_criteria, e.notes));
+            }
+        }
+        v.sort();
+        v
+    };
+    let policy_same = if matches!(uc, UCmd::RegenAuditAs) { rest_of(&a.config.policy) == rest_of(&b.config.policy) } else { format!("{:?}", a.config.policy) == format!("{:?}", b.config.policy) };
+    if !policy_same || a.config.default_criteria != b.config.default_criteria {
+        r.fail("oracle", "C11/ucmd/policy-changed", format!("`{lab}` changed policy: {:?} -> {:?}", rest_of(&b.config.policy), rest_of(&a.config.policy)), case);
     }
     // import configuration
     for (n, i) in &a.config.imports {
@@ -495,6 +515,8 @@ fn c11_no_wider(r: &mut Report, p: &Project, uc: &UCmd, before: &[String], live_
             }
         }
         UCmd::RecordViolation { .. } | UCmd::Check | UCmd::Prune { .. } | UCmd::RegenImports | UCmd::RegenUnpublished => {}
+        // (changes which packages are vetted at all, not what records certify)
+        UCmd::RegenAuditAs => return,
     }
     // the live view of before + ask, against the same remote
     let root = std::env::var("VERIF_WORK").map(PathBuf::from).unwrap_or_else(|_| std::env::temp_dir());
@@ -739,7 +761,7 @@ fn gen_ucmd(rng: &mut Rng, w: &CmdWorld, crits: &[String]) -> UCmd {
         0 => UCmd::Check,
         1 => UCmd::Prune { no_exemptions: rng.chance(1, 3), no_audits: rng.chance(1, 3), no_imports: rng.chance(1, 3) },
         2 => UCmd::RegenImports,
-        3 => UCmd::RegenUnpublished,
+        3 => if rng.chance(1, 2) { UCmd::RegenUnpublished } else { UCmd::RegenAuditAs },
         4 | 5 | 6 => UCmd::CertifyFull { pkg, v: if rng.chance(2, 3) || ov.is_empty() { rng.pick(&gv).clone() } else { rng.pick(&ov).clone() }, crit: crit_list(rng) },
         7 | 8 | 9 | 10 => {
             let to = if rng.chance(4, 5) || ov.is_empty() { rng.pick(&gv).clone() } else { rng.pick(&ov).clone() };
@@ -786,6 +808,24 @@ pub fn exec_user_history(r: &mut Report, d: &mut Driver, rng: &mut Rng, idx: u64
             w.remote.install();
         }
     }
+    if fixed.is_none() && rng.chance(1, 4) {
+        // a stale `audit-as-crates-io` flag on a crates.io crate, next to a dependency-criteria
+        // entry the user wrote: `regenerate audit-as-crates-io` has to clear the one and keep the other
+        let third: Vec<(String, VetVersion, Vec<usize>)> = w.graph.pkgs.iter().filter(|q| q.source == 1 && w.graph.pkgs.iter().filter(|x| x.name == q.name).count() == 1).map(|q| (q.name.clone(), q.version.clone(), q.deps.iter().map(|d| d.0).collect())).collect();
+        if !third.is_empty() {
+            if let Some(mut st) = load(&p.files()) {
+                let (n, v, deps) = rng.pick(&third).clone();
+                let dep = deps.first().map(|d| w.graph.pkgs[*d].name.clone()).unwrap_or_else(|| "alfa".to_owned());
+                let mut dc = CriteriaMap::new();
+                dc.insert(gen::sp(dep), vec![gen::sp(rng.pick(&crits).clone())]);
+                let mut versions = SortedMap::new();
+                versions.insert(v, PolicyEntry { audit_as_crates_io: Some(rng.chance(1, 2)), criteria: None, dev_criteria: None, dependency_criteria: dc, notes: None });
+                st.config.policy.package.insert(n.clone(), PackagePolicyEntry::Versioned { version: versions });
+                p.write(&st.mock_commit());
+                trace.push(format!("config.toml: stale audit-as-crates-io flag with dependency-criteria on {n}"));
+            }
+        }
+    }
     let steps = fixed.as_ref().map(|f| f.len()).unwrap_or_else(|| rng.range(2, 4));
     let mut nontrivial = false;
     for si in 0..steps {
@@ -817,7 +857,7 @@ pub fn exec_user_history(r: &mut Report, d: &mut Driver, rng: &mut Rng, idx: u64
         }
         // ---- wiring correspondence
         let collapsing = matches!(&uc, UCmd::CertifyDelta { from, collapse: true, .. } if from.git_rev.is_some());
-        if !matches!(uc, UCmd::Renew { .. }) && !collapsing {
+        if !matches!(uc, UCmd::Renew { .. } | UCmd::RegenAuditAs) && !collapsing {
             let canon = |f: &[String]| format!("--- audits.toml\n{}\n--- config.toml\n{}\n--- imports.lock\n{}", f[0], f[1], f[2]);
             match (&o, &expected) {
                 (Outcome::Ok, Ok(exp)) => {
